@@ -573,7 +573,8 @@ public:
                 }
             });
             QObject::connect(w.client, &QXmppClient::connected, &ctx, [&] {
-                if (w.client->streamManagementState() != QXmppClient::ResumedStream && w.connectedSignals > 1) {
+                const bool resumedTruth = w.server->current() ? w.server->current()->resumedHere : w.client->streamManagementState() == QXmppClient::ResumedStream;
+                if (!resumedTruth && w.connectedSignals > 1) {
                     w.probe("nonresumed_session_opened");
                     // requests written before belong to the dead session
                     QList<TrackedPtr> before;
